@@ -307,6 +307,11 @@ def hidden_cycle_grammar(rng, terms, order):
         prods[n] = alts
     tail = tuple(rng.choice(terms) for _ in range(rng.randint(0, 2)))
     rec_alt = tuple(nulls) + (x,) + tail
+    if nulls and rng.random() < 0.3:
+        # one of the optional symbols stands twice in the prefix (optional blanks on both sides of an optional sign)
+        prefix = list(nulls)
+        prefix.insert(rng.randint(1, len(prefix)), rng.choice(nulls))
+        rec_alt = tuple(prefix) + (x,) + tail
     other = [(rng.choice(terms),)]
     if rng.random() < 0.5:
         other.append((rng.choice(terms), rng.choice(terms)))
